@@ -4,7 +4,7 @@ import os
 
 from analysis.affine import Affine, Form, entails_le
 from analysis.flow import must_cross, return_points, term_pt, trace_op
-from analysis.guards import facts_at, field_writes
+from analysis.guards import facts_at, field_writes, struct_constructions
 from analysis.mir import callee_matches, op_place
 from analysis.report import VERIF
 from analysis.sym import Sym, render, is_call, const_val, walk
@@ -27,7 +27,7 @@ EXPLANATION = (
     "are value-independent, so they hold for all field values and capacity relations. (stream-fills-frame, shared with C02) the read side: a frame read from a stream into a reusable buffer leaves the buffer exactly the frame (len == 48+q+b, filled by read_exact). Not decided: what the OS / tungstenite "
     "does with the bytes afterwards."
 )
-ASSUMPTIONS = ["to_le_bytes/from_le_bytes are inverse; Vec::extend_from_slice/append/copy_within/copy_from_slice have std semantics",
+ASSUMPTIONS = ["by-value iteration over a fixed array yields its elements once each in index order", "to_le_bytes/from_le_bytes are inverse; Vec::extend_from_slice/append/copy_within/copy_from_slice have std semantics",
                "every in-crate Message is well formed (header lengths agree with the vectors), which MessageBuilder::build establishes (length-formula)"]
 
 SPEC = os.path.join(VERIF, "rules", "spec", "repe_v1_header.json")
@@ -304,6 +304,8 @@ def emission(facts, R):
                 cls = "?" + txt[:60]
             seq.append((i, cls, fs, t))
         order = [c for _, c, _, _ in seq]
+        if len(seq) == 2 and order[0] == "H" and _segment_loop(facts, R, path, b, s, seq):
+            continue
         R.check(order == ["H", "Q", "B"], "emission-normal-form", path, "emits header, query, body and nothing else",
                 "emission sequence is %s" % order, b.span, "H,Q,B")
         if order != ["H", "Q", "B"]:
@@ -357,6 +359,61 @@ def emission(facts, R):
             a = [render(hs.op(x)) for x in t["args"]]
             ok = a[1].endswith(".header") and "route_request_view" in a[1] and "len(" in a[3] and a[3].endswith(".body)")
             R.check(ok, "emission-normal-form", hb.path, "server frames (resp.header, echo, resp.body.len())", "write_message_streaming args %s" % [x[-50:] for x in a], t.get("span"))
+
+
+def _segment_loop(facts, R, path, b, s, seq):
+    """`for segment in [query, body] { if !segment.is_empty() { emit(segment) } }` after the header: the second emission site
+    emits the element of a by-value iteration over the fixed array [query, body].  Returns False when the code is not of this
+    form (the caller then reports the sequence as it found it)."""
+    (hi, _, hf, ht), (xi, _, xf, xt) = seq
+    src = s.op(xt["args"][1])
+    if not (src[0] == "field" and src[2] == "0" and src[1][0] == "variant" and src[1][2] == "Some" and is_call(src[1][1], "next")):
+        return False
+    nx = src[1][1]
+    it = nx[2][0]
+    if not (is_call(it, "into_iter") and "[T; N]" in it[1] and it[2][0][0] == "agg" and it[2][0][1] == "array"):
+        return False
+    elems = [render_n(v) for _, v in it[2][0][3]]
+    N = nx[3]
+    ok_elems = len(elems) == 2 and (elems[0].endswith(".query") or elems[0] == "arg3") and elems[1].endswith(".body")
+    R.check(ok_elems, "emission-normal-form", path, "segment loop iterates [query, body]", "the payload loop iterates %s" % elems, xt.get("span"), str(elems))
+    nexts = [i for i, t in b.calls() if t["callee"]["name"] == "next" and render(s.op(t["args"][0])) == render(it)]
+    loop_ok = len(nexts) == 1 and nexts[0] == N and xi in b.reachable((N,)) and N in b.reachable((xi,)) and b.dominates(hi, N) and hi != N
+    R.check(loop_ok, "emission-normal-form", path, "header, then one pass over the segments", "the segment iterator is advanced at %s; header emission does not dominate the loop" % nexts, xt.get("span"),
+            "one Iterator::next per cycle, dominated by the header emission")
+    # the switch on the iterator result
+    some_t = none_t = None
+    for y in sorted(b.live_blocks()):
+        t = b.term(y)
+        if t["k"] != "switch":
+            continue
+        e = s.op(t["on"])
+        if e[0] == "discr" and e[1] == nx:
+            from analysis.guards import _variants_for_discr
+            vm = _variants_for_discr(b, facts, t, y) or {}
+            listed = {vm.get(v, str(v)): tb for v, tb in t["targets"]}
+            some_t = listed.get("Some", t.get("otherwise"))
+            none_t = listed.get("None", t.get("otherwise"))
+    if some_t is None or none_t is None or some_t == none_t:
+        R.bad("emission-normal-form", path, "segment loop", "cannot find the Some/None test of the segment iterator", xt.get("span"))
+        return True
+    oks = _ok_exits(b)
+    w = must_cross(b, [term_pt(b, hi)], oks, [(none_t, 0)])
+    R.check(w is None, "emission-normal-form", path, "loop left only when the segments are exhausted", "a successful return is reachable before the segment iterator is exhausted", b.span, path=w)
+    elem_txt = render(src)
+    bad_guard = [x for x in xf if "is_empty(" in x and not (x.endswith("is False") and elem_txt in x)]
+    R.check(not bad_guard, "emission-normal-form", path, "segment skipped only when empty", "segment emission guarded by %s" % bad_guard, xt.get("span"))
+    empties = []
+    for y in sorted(b.live_blocks()):
+        for f in facts_at(b, s, facts, y):
+            if is_call(f["expr"], "is_empty") and render(f["expr"][2][0]) == elem_txt and f["val"] is True:
+                empties.append((y, 0))
+    w = must_cross(b, [(some_t, 0)], oks + [term_pt(b, N)], [term_pt(b, xi)] + empties, after_start=False)
+    R.check(w is None, "emission-normal-form", path, "non-empty segment always emitted", "the loop can move to the next segment without emitting a non-empty one", b.span, path=w)
+    hsrc = s.op(ht["args"][1])
+    hx = render_n(hsrc[2][0])
+    R.check(hx.endswith("header"), "emission-normal-form", path, "encodes the message's header", "header emitted is encode(%s)" % hx, ht.get("span"), "encode(%s)" % hx)
+    return True
 
 
 def _ok_exits(b):
@@ -506,10 +563,41 @@ def length_formula(facts, R):
                 det = "%s.length = %s; 48 + query_length + body_length = %s" % (base, lf, want)
                 R.check(lf == want, "length-formula", b.path, "length = 48 + query_length + body_length (same header) after the last store (%s)" % fld_name,
                         "the header leaves %s with %s" % (b.path, det), w["span"], det)
+    # headers built by a struct literal: the literal itself must satisfy the formula (fields inherited from another header
+    # through `..base` are that header's responsibility)
+    lit = {"query_length": [], "body_length": []}
+    for b, i, j, st in struct_constructions(facts, "header::Header"):
+        if b.path in ("header::Header::decode", "<header::Header as std::default::Default>::default") or i not in b.live_blocks():
+            continue    # decode: wire values, judged by C02; Default: the blank header every builder starts from
+        rv = st["rv"]
+        ops = dict(zip(rv["fields"], rv["ops"]))
+        s = Sym(b)
+        txts = {f: render(s.op(ops[f])) for f in ("length", "query_length", "body_length") if f in ops}
+        if len(txts) != 3:
+            continue
+        bases = {t[:-len("." + f)] for f, t in txts.items() if t.endswith("." + f)}
+        if len(bases) == 1 and all(t.endswith("." + f) for f, t in txts.items()):
+            continue
+        aff = Affine(b, facts)
+        stt = aff.state_at((i, j))
+        forms = {f: aff.op_form(stt, ops[f]) for f in txts}
+        n += 1
+        okf = forms["length"] is not None and forms["query_length"] is not None and forms["body_length"] is not None and \
+            forms["length"] == Form.const(48).add(forms["query_length"]).add(forms["body_length"])
+        det = "Header{length: %s, query_length: %s, body_length: %s}" % (forms["length"], forms["query_length"], forms["body_length"])
+        R.check(okf, "length-formula", b.path, "length = 48 + query_length + body_length in the header literal",
+                "the header literal in %s is %s" % (b.path, det), st.get("span"), det)
+        for f in lit:
+            lit[f].append((b, s.op(ops[f]), st))
     R.floor("length-formula", n, 5, "stores to Header.length")
     # query_length / body_length stores
     for fld, what in (("query_length", "query"), ("body_length", "body")):
         k = 0
+        for b, v, st in lit[fld]:
+            txt = render(v)
+            ok = (is_call(_unconv(v), "len") and (txt.rstrip(")").endswith(".%s" % what) or txt.rstrip(")").endswith("(%s" % what))) or (fld == "body_length" and txt == "body_len")
+            k += 1
+            R.check(ok, "length-formula", b.path, "%s = len(%s)" % (fld, what), "%s := %s" % (fld, txt), st.get("span"), txt)
         for w in field_writes(facts, "header::Header", fld, include_borrows=False):
             b = w["body"]
             if b.path == "header::Header::decode" or w["kind"] != "store":
@@ -521,6 +609,12 @@ def length_formula(facts, R):
             k += 1
             R.check(ok, "length-formula", b.path, "%s = len(%s)" % (fld, what), "%s := %s" % (fld, txt), w["span"], txt)
         R.floor("length-formula", k, 3 if fld == "query_length" else 2, "stores to Header." + fld)
+
+
+def _unconv(e):
+    while e[0] == "cast" and len(e) > 2:
+        e = e[2] if isinstance(e[2], tuple) else e[1]
+    return e
 
 
 def _sum_terms(e):
